@@ -193,7 +193,7 @@ pub fn case(ctx: &mut Ctx, idx: u64) {
         });
 
         // gradual difficulty with random strides
-        let dg = spec.without_passed().to_difficulty(mode);
+        let dg = spec.for_gradual().to_difficulty(mode);
         if let Some(Ok(mut g)) = step(ctx, "gradual_difficulty::new", mname, &detail, text, || crate::api::gradual(dg.clone(), &map, mode)) {
             let max_steps = if heavy { 12 } else { 80 };
             for _ in 0..max_steps {
